@@ -244,6 +244,11 @@ END;
 CREATE TRIGGER IF NOT EXISTS step_dependency_check_after_del AFTER DELETE ON dependency
 BEGIN
     UPDATE step SET _check_after = 1 WHERE node IN (OLD.source, OLD.sink);
+    -- The producers of a file that loses a consumer must be recomputed too.
+    -- Propagation from the flagged consumer follows the edges that still exist,
+    -- so it can no longer reach them through the deleted one.
+    UPDATE step SET _check_after = 1
+    WHERE node IN (SELECT source FROM dependency WHERE sink = OLD.source);
     UPDATE step SET _check_ready = 1 WHERE node = OLD.sink;
 END;
 
